@@ -49,9 +49,22 @@ func rapidGroup(t *testing.T, name string) {
 	if err != nil {
 		ev.Infra(t, "group %s: %v", g.name, err)
 	}
-	seedPass(t, rec, tgs)
+	if sh := os.Getenv("VERIF_SHARD"); sh == "" || sh == "0" {
+		// the unmutated corpus and the hostile constants are the same in every shard: shard 0 feeds them
+		seedPass(t, rec, tgs)
+	}
+	var weighted []*target
+	for _, tg := range tgs {
+		w := tg.weight
+		if w == 0 {
+			w = 3
+		}
+		for i := 0; i < w; i++ {
+			weighted = append(weighted, tg)
+		}
+	}
 	rapid.Check(t, func(rt *rapid.T) {
-		tg := tgs[rapid.IntRange(0, len(tgs)-1).Draw(rt, "target")]
+		tg := weighted[rapid.IntRange(0, len(weighted)-1).Draw(rt, "target")]
 		in, seedName, how, kinds := genInput(rt, tg)
 		if sig := excluded(tg, in); sig != "" {
 			rec.Discard("excluded:" + sig)
